@@ -155,7 +155,7 @@ def harness_build_(name):
     return rc, out, dt
 
 
-BAD_RE = re.compile(r"\(\s*(\d+)\s*,\s*\(\s*(\d+)\s*,\s*(\d+)\s*\)\s*\)")
+BAD_RE = re.compile(r"\(\s*(\d+)(?:%nat)?\s*,\s*\(\s*(\d+)(?:%nat)?\s*,\s*(\d+)(?:%nat)?\s*\)\s*\)")
 
 
 def eval_cases(outdir):
@@ -177,7 +177,10 @@ def eval_cases(outdir):
                 continue
             body = m.group(1)
             if body.strip() != "[]":
-                for g in BAD_RE.finditer(body):
+                found = list(BAD_RE.finditer(body))
+                if not found:
+                    errors.append("%s: unparsable non-empty result: %s" % (os.path.basename(f), body[:300]))
+                for g in found:
                     failing.append((int(g.group(1)), int(g.group(2)), int(g.group(3))))
     return failing, errors
 
